@@ -238,7 +238,7 @@ def render(v):
         return 'HASHER(%s;%s)' % (v.alg, render_items(v.items))
     if isinstance(v, ListV):
         br = '[]' if v.kind == 'list' else '()' if v.kind == 'tuple' else '{}'
-        return br[0] + ', '.join(render(e) for e in v.elems) + br[1]
+        return br[0] + ', '.join(render(e) for e in v.elems) + (',' if v.kind == 'tuple' and len(v.elems) == 1 else '') + br[1]
     if isinstance(v, Obj):
         return v.text if v.name.startswith('<new') else v.name
     if isinstance(v, EachV):
@@ -670,6 +670,11 @@ class Frame(object):
         if isinstance(node.value, (ast.Yield, ast.YieldFrom)):
             v = self.ev(node.value.value, st) if node.value.value is not None else Const(None)
             if isinstance(node.value, ast.YieldFrom):
+                if isinstance(v, ListV) and not any(isinstance(e, EachV) for e in v.elems):
+                    for e in v.elems:          # `yield from <known sequence>` yields its elements one by one
+                        st.yields.append(e)
+                        st.events.append(('yield', render(e), node.lineno))
+                    return [(st, 'normal')]
                 v = Sym('*' + render(v))
             st.yields.append(v)
             st.events.append(('yield', render(v), node.lineno))
@@ -728,6 +733,11 @@ class Frame(object):
 
     def st_Assign(self, node, st):
         v = self.ev(node.value, st)
+        if len(node.targets) > 1 and isinstance(v, Obj) and v.name.startswith('<new'):
+            # a = b.c = K(): one object behind every target - name it once (after the first plain name), not per target
+            nm = next((t.id for t in node.targets if isinstance(t, ast.Name)), None)
+            if nm is not None:
+                v = Obj(nm, v.cls, v.text)
         for t in node.targets:
             self.assign(t, v, st, node)
         return [(st, 'normal')]
@@ -1461,6 +1471,12 @@ class Frame(object):
                 return v
             except SyntaxError:
                 pass
+        if self.sc.extended and isinstance(base, Const) and isinstance(base.value, Enum):
+            # a static method reached through an enum member (self._helper with self the member): the function itself
+            for ci in self.prog.classes_by_name.get(base.value.cls, []):
+                fi = ci.find_method(node.attr)
+                if fi is not None and any(dotted(d) == 'staticmethod' for d in fi.node.decorator_list):
+                    return FuncV(fi)
         if node.attr == 'hasher':
             return Hasher(bt)
         cls = base.cls if isinstance(base, (Sym, Obj)) else None
@@ -2206,6 +2222,10 @@ class Frame(object):
                 if r is not None:
                     return r
                 return Sym('%s(%s)' % (n, self._argtext(args, kwargs)))
+            if self.sc.extended and type(callee) is Sym and n not in self.fi.params and re.match(r'^[A-Za-z_][\w.]*$', callee.text) and callee.text != n:
+                # a local bound to an opaque callable (f = zlib.compress; f(x)): the call is the call of that callable
+                record(callee.text)
+                return Sym('%s(%s)' % (callee.text, self._argtext(args, kwargs)))
             if isinstance(callee, ClassV) and (n not in self.fi.params or self.sc.canonical_objs):
                 # a local (not a parameter such as `cls`) bound to a class (k = A if c else B; k()): the call constructs that class
                 record(callee.ci.name)
